@@ -116,6 +116,19 @@ func AKIExt(keyID []byte, issuerRaw []byte, serial *big.Int) pkix.Extension {
 	return pkix.Extension{Id: asn1.ObjectIdentifier{2, 5, 29, 35}, Value: b.BytesOrPanic()}
 }
 
+// AKIExtGeneralName is an authority key identifier whose authorityCertIssuer is a GeneralName other than a
+// directoryName (tag 6 = URI, 2 = dNSName, 1 = rfc822Name), together with a certificate serial number.
+func AKIExtGeneralName(tag uint8, value string, serial *big.Int) pkix.Extension {
+	var b cryptobyte.Builder
+	b.AddASN1(cbasn1.SEQUENCE, func(b *cryptobyte.Builder) {
+		b.AddASN1(cbasn1.Tag(1).ContextSpecific().Constructed(), func(b *cryptobyte.Builder) {
+			b.AddASN1(cbasn1.Tag(tag).ContextSpecific(), func(b *cryptobyte.Builder) { b.AddBytes([]byte(value)) })
+		})
+		b.AddASN1(cbasn1.Tag(2).ContextSpecific(), func(b *cryptobyte.Builder) { b.AddBytes(intBytes(serial)) })
+	})
+	return pkix.Extension{Id: asn1.ObjectIdentifier{2, 5, 29, 35}, Value: b.BytesOrPanic()}
+}
+
 func UnknownExt(critical bool, size int) pkix.Extension {
 	v := bytes.Repeat([]byte{0x5a}, size)
 	ov, _ := asn1.Marshal(v)
@@ -125,6 +138,21 @@ func UnknownExt(critical bool, size int) pkix.Extension {
 func DeltaCRLIndicatorExt() pkix.Extension {
 	b, _ := asn1.Marshal(big.NewInt(1))
 	return pkix.Extension{Id: asn1.ObjectIdentifier{2, 5, 29, 27}, Critical: true, Value: b}
+}
+
+// StdCriticalExt is one of the standard CRL extensions which this validator does not implement, marked critical.
+func StdCriticalExt(name string) pkix.Extension {
+	switch name {
+	case "idp": // issuingDistributionPoint { indirectCRL TRUE, onlySomeReasons {keyCompromise} }
+		return pkix.Extension{Id: asn1.ObjectIdentifier{2, 5, 29, 28}, Critical: true, Value: []byte{0x30, 0x07, 0x83, 0x02, 0x06, 0x40, 0x84, 0x01, 0xff}}
+	case "ian": // issuerAltName { dNSName "ca.test" }
+		return pkix.Extension{Id: asn1.ObjectIdentifier{2, 5, 29, 18}, Critical: true, Value: append([]byte{0x30, 0x09, 0x82, 0x07}, "ca.test"...)}
+	case "freshest": // freshestCRL { fullName URI "http://d" }
+		return pkix.Extension{Id: asn1.ObjectIdentifier{2, 5, 29, 46}, Critical: true, Value: append([]byte{0x30, 0x10, 0x30, 0x0e, 0xa0, 0x0c, 0xa0, 0x0a, 0x86, 0x08}, "http://d"...)}
+	case "aia": // authorityInfoAccess { caIssuers URI "http://i" }
+		return pkix.Extension{Id: asn1.ObjectIdentifier{1, 3, 6, 1, 5, 5, 7, 1, 1}, Critical: true, Value: append([]byte{0x30, 0x14, 0x30, 0x12, 0x06, 0x08, 0x2b, 0x06, 0x01, 0x05, 0x05, 0x07, 0x30, 0x02, 0x86, 0x06}, "http:i"...)}
+	}
+	panic("world.StdCriticalExt: " + name)
 }
 
 func intBytes(n *big.Int) []byte {
